@@ -19,11 +19,24 @@ def example(draw, tier):
     flavor = draw(st.sampled_from(["memb", "mb", "qsbr", "bp", "bp"]))
     memb = draw(st.integers(0, 1)) if flavor in ("memb", "bp") else 1
     maxt = 6 if flavor == "bp" else (4 if tier == "quick" else 5)
-    prog, nops, nslots = gen.gp_program(draw, tier, flavor, dynamic=True, max_threads=maxt, max_ops=6 if flavor == "bp" else None)
+    churn = flavor == "bp" and draw(st.integers(0, 2)) == 0
+    if churn:
+        # slot churn: short-lived reader threads that stay alive for a generated number of yields, created and joined in waves, plus one updater;
+        # with new-chunk growth forced (every in-place mremap refused) or accepted. Exercises slot reuse across chunks of capacity 1, 2, 4.
+        n = draw(st.integers(3, 6))
+        prog, nops = [], [0]
+        for t in range(1, n + 1):
+            ops = ["lock", "read 0"] + ["yield"] * draw(st.integers(0, 8)) + ["unlock"]
+            if t == n and draw(st.booleans()):
+                ops = ["sync 0"] + ops
+            prog += ["T%d %s" % (t, o) for o in ops]; nops.append(len(ops))
+        nslots = 1
+    else:
+        prog, nops, nslots = gen.gp_program(draw, tier, flavor, dynamic=True, max_threads=maxt, max_ops=6 if flavor == "bp" else None)
     n = len(nops) - 1
     # T0 program: waves of spawn/join (valid: every thread spawned once, joined once, after its spawn)
     t0 = []
-    if draw(st.booleans()):
+    if churn or draw(st.booleans()):
         order = list(range(1, n + 1))
         live = []
         for t in order:
@@ -37,7 +50,7 @@ def example(draw, tier):
     sigth = list(range(1, n + 1)) if flavor == "bp" else []
     out = []
     for _ in range(gen.BATCH):
-        sched = gen.schedule_lines(draw, tier, len(nops), nops, faults=("mremap_fail", "mremap_fail_all") if flavor == "bp" else (), fault_max=1,
+        sched = gen.schedule_lines(draw, tier, len(nops), nops, faults=(("mremap_fail_all", "mremap_fail_all", "mremap_fail") if churn else ("mremap_fail", "mremap_fail_all")) if flavor == "bp" else (), fault_max=1,
                                    sig_threads=sigth if draw(st.integers(0, 2)) == 0 else (), sig_max=2)
         out.append("\n".join(head + t0 + prog + sched) + "\n")
     return out
